@@ -97,6 +97,8 @@ def run(ctx, log):
     for _ in range(1000 if ctx.quick else 20000):
         sessions.append([rng.choice(pool) for _ in range(rng.randint(4, 12))])
     sessions += [["1 / 0; stel c = 5", "c"], ["stel a = 1", "a = 2; [1][3]; stel d = a", "d"], ["stel c = 1 / 0", "c"], ["stel a = 1", "a = 7; ja + 1", "a"],
+                 ["stel a = 10", "stel b = 20; stel c = 30; a = a + 1; c / 0", "a", "b", "c"], ["stel a = 1", "stel e = 4; a = e; ja + 1", "e + a"], ["stel x = 3", "functie dubbel(n) { n * 2 }; dubbel(x)", "functie oppervlak(b, h) { stel o = b * h; o }; oppervlak(x, 4)"],
+                 ["stel x = 3", "functie dubbel(n) { n * 2 }; dubbel(onbekend)", "functie oppervlak(b, h) { stel o = b * h; o }; oppervlak(x, 4)"],
                  ["{ stel a = 5 }", "stel b = 1 / 0", "b"], ["{ stel a = 5 }; stel b = 1 / 0", "b"], ["stel q = 1", "als ja { stel t = 41; t }", "stel r = ja + 1", "r"]]
     budgets = [100000] * len(sessions)
     scalar_alpha_pre = ["stel a = 1", "stel b = a + 1", "a = a + 1", "a + b", "stel a = 5; a", "a == b", "stel d = a; stel d = d + 1; d"]
